@@ -5,7 +5,7 @@ use super::generate::Class;
 use super::{Replay, WorkerSummary};
 use crate::evidence::Evidence;
 use crate::known::Known;
-use crate::pool::{self, PoolError, verif_root};
+use crate::pool::{self, PoolError};
 use serde_json::json;
 use std::path::PathBuf;
 use std::time::Instant;
@@ -103,7 +103,7 @@ fn tier_runs(c: &E1Check, tier: &str) -> u64 {
 }
 
 pub fn persist_replay(r: &Replay) -> std::io::Result<PathBuf> {
-    let dir = verif_root().join("replays");
+    let dir = pool::out_root().join("replays");
     std::fs::create_dir_all(&dir)?;
     let text = serde_json::to_string_pretty(r)?;
     let h = crate::rng::hash_str(&text);
@@ -157,6 +157,12 @@ pub fn run_check(property: &str, tier: &str) -> i32 {
         }
         return 2;
     }
+
+    // ---- sampled determinism self-test (two executions in different processes/partitions)
+    let det_runs = match super::selftest::compare(c.class, 96, 3, 2) {
+        Ok(n) => n,
+        Err(e) => harness_fail(&format!("nondeterminism detected: {e}")),
+    };
 
     // ---- violations: minimise, persist, classify against known findings
     let known = Known::load();
@@ -227,6 +233,7 @@ pub fn run_check(property: &str, tier: &str) -> i32 {
             "eintr": sum.eintr,
             "readdir_orders_permuted": sum.readdir_perms,
             "hash_keys_reseeded_runs": sum.runs,
+            "distinct_hash_iteration_orders_observed": sum.hash_orders.len(),
             "restore_between_builds": sum.ops_by_kind.get("Restore").copied().unwrap_or(0),
             "chaos_runs": sum.chaos_runs,
         }),
@@ -234,6 +241,7 @@ pub fn run_check(property: &str, tier: &str) -> i32 {
     ev.cov("intercepted_fs_calls", json!(sum.fs_calls));
     ev.cov("intercepted_fs_calls_by_kind", json!(sum.per_kind));
     ev.cov("probes", json!(sum.probes));
+    ev.cov("determinism_selftest", json!({"runs_executed_twice": det_runs, "event_logs_identical": true}));
     ev.cov("transition_cells", json!(sum.transitions.iter().take(400).collect::<Vec<_>>()));
     ev.cov(
         "components",
